@@ -202,6 +202,27 @@ def run_shard(shard):
                 jax.debug.callback(rec, x, y, ordered=True)
             return y
 
+    class DirectInverter(eqx.Module):
+        """Calls the search function itself with the ends of the interval exactly as given (the public inverter class converts its
+        bounds; the function is documented for Real arrays, integer-typed ones included)."""
+        lower: jax.Array
+        upper: jax.Array
+        tol: float = eqx.field(static=True)
+        max_iter: int = eqx.field(static=True)
+
+        def __call__(self, bijection, y, condition=None):
+            from flowjax.bisection_search import _autoregressive_bisection_search
+
+            return _autoregressive_bisection_search(autoregressive_fn=lambda x: bijection.transform(x, condition) - y, lower=self.lower, upper=self.upper,
+                                                    tol=self.tol, length=bijection.shape[0], max_iter=self.max_iter)
+
+    def make_inverter(lo, hi, key, tol, max_iter):
+        a, b_ = bound_repr(lo, key), bound_repr(hi, key)
+        if isinstance(a, jax.Array) and jnp.issubdtype(a.dtype, jnp.integer):
+            counters["direct_function_calls_with_integer_bounds"] = counters.get("direct_function_calls_with_integer_bounds", 0) + 1
+            return DirectInverter(a, b_, tol, max_iter)
+        return AutoregressiveBisectionInverter(lower=a, upper=b_, tol=tol, max_iter=max_iter)
+
     @eqx.filter_jit
     def solve(inv, fn, y):
         return inv(fn, y, None)
@@ -270,7 +291,7 @@ def run_shard(shard):
         if not np.isfinite(yv):
             cases.discard(key)
             return
-        inv = AutoregressiveBisectionInverter(lower=bound_repr(lo, key), upper=bound_repr(hi, key), tol=tol, max_iter=max_iter)
+        inv = make_inverter(lo, hi, key, tol, max_iter)
         W0 = hi - lo
         dist = max(0.0, lo - r, r - hi)
         bound = step_bound(W0, dist, max_iter)
@@ -333,7 +354,7 @@ def run_shard(shard):
         fn = Fn(jnp.asarray(P, dtype=fdt), jnp.asarray(A, dtype=fdt), tuple(fams), (dim,))
         rj = jnp.asarray(r, dtype=fdt)
         y = forward(fn, rj)
-        inv = AutoregressiveBisectionInverter(lower=bound_repr(lo, key), upper=bound_repr(hi, key), tol=tol, max_iter=max_iter)
+        inv = make_inverter(lo, hi, key, tol, max_iter)
         W0 = hi - lo
         rr = np.asarray(rj, dtype=np.float64)
         dists = np.maximum(0, np.maximum(lo - rr, rr - hi))
